@@ -416,6 +416,24 @@ impl World {
             });
             let mut any = !evs.is_empty();
             for (ep, data) in evs {
+                // endpoints of different senders are different endpoints (also for one listener, whose peers
+                // all share its resource id): equality and hashing must tell them apart
+                {
+                    use std::hash::{Hash, Hasher};
+                    let h = |e: &Endpoint| {
+                        let mut s = std::collections::hash_map::DefaultHasher::new();
+                        e.hash(&mut s);
+                        s.finish()
+                    };
+                    for old in self.last_ep.values() {
+                        if old.addr() != ep.addr() && *old == ep {
+                            self.fails.push(format!("endpoints {:?} and {:?} compare equal", old, ep));
+                        }
+                        if old.addr() == ep.addr() && old.resource_id() == ep.resource_id() && (*old != ep || h(old) != h(&ep)) {
+                            self.fails.push(format!("equal endpoints {:?} compare or hash differently", ep));
+                        }
+                    }
+                }
                 let recv = self.index_of_id(ep.resource_id());
                 let src = self.index_of_addr(ep.addr());
                 match (recv, src) {
